@@ -136,11 +136,16 @@ where
             self.position += self.block.size();
 
             if self.block.data().len() > 0 {
-                break;
+                return Ok(self.block.data().len());
             }
         }
 
-        Ok(self.block.data().len())
+        // EOF: There is no block at the current position. The previously read block must not be
+        // kept, or its data (and length) would be returned again, e.g., after seeking to the end
+        // of a stream that has no EOF block.
+        self.block.clear(self.position);
+
+        Ok(0)
     }
 
     fn read_block(&mut self) -> io::Result<usize> {
